@@ -144,7 +144,7 @@ def fold_reads(repo: Repo) -> dict | None:
 def fold_writes(repo: Repo) -> dict | None:
     """Fold BitBuffer.write + flush over unsigned / signed storage types (Int-style and Packed-style signedness)."""
     m = BitBufferModel(repo)
-    out = {"cases": 0, "bad": [], "range_bad": [], "state_bad": []}
+    out = {"cases": 0, "bad": [], "range_bad": [], "state_bad": [], "overflow_bad": []}
     try:
         for endian in "<>!=@":
             for size in (1, 2, 4):
@@ -192,6 +192,28 @@ def fold_writes(repo: Repo) -> dict | None:
                             st = bb.attrs
                             if st["_type"] is not None or st["_remaining"] != 0 or st["_buffer"] != 0:
                                 out["state_bad"].append((endian, size, seq, {k: st[k] for k in ("_type", "_remaining", "_buffer")}))
+        # a value too wide for its field in the most significant position makes the accumulated pattern exceed the unit: whatever is handed to the
+        # storage type must then be outside its range (so that it is refused), for signed storage types too
+        for endian in "<>":
+            for size in (1, 2):
+                total = size * 8
+                for signed, style in ((False, "int"), (True, "int"), (True, "packed")):
+                    sink = []
+                    ft = m.storage_type(f"o{total}", size, signed, style, sink, [])
+                    bb = m.buffer(endian, sink)
+                    seq = (total - 4, 4)
+                    datas = (1, 0x13) if endian == "<" else (((1 << (total - 4)) | 3), 1)
+                    for d_, b_ in zip(datas, seq):
+                        m.call(bb, "write", ft, d_, b_)
+                    if not sink:
+                        m.call(bb, "flush")
+                    out["cases"] += 1
+                    for label, value in sink:
+                        if label == "<raw>":
+                            continue
+                        lo, hi = (-(1 << (total - 1)), 1 << (total - 1)) if signed else (0, 1 << total)
+                        if isinstance(value, int) and lo <= value < hi:
+                            out["overflow_bad"].append((endian, size, signed, style, datas, value))
     except Refused as e:
         m.refused = str(e)
         return None
